@@ -92,8 +92,25 @@ def _evaluate_case(grammar, text, formula, oracle_formula, features, solver, sol
         strategy.append("legacy")
     if after.get("eliminate_quantifiers", 0) > before.get("eliminate_quantifiers", 0):
         strategy.append("qe")
+    transient = []
+    if ev == "U":
+        # is_valid() gives Z3 500 ms of wall-clock time; on a loaded machine that expires spuriously.
+        # UNKNOWN counts only if it persists over two more attempts.
+        for _ in range(2):
+            again = H.call_evaluate(formula if formula is not None else text, tree, grammar, watchdog_s)
+            if again != "U":
+                transient.append(f"evaluate: UNKNOWN, then {again} on retry")
+                ev = again
+                break
     if solver is not None:
         ck = H.call_check(solver, tree, watchdog_s)
+        if ck == "U":
+            for _ in range(2):
+                again = H.call_check(solver, tree, watchdog_s)
+                if again != "U":
+                    transient.append(f"check: UnknownResultError, then {again} on retry")
+                    ck = again
+                    break
     else:
         ck = solver_error
     if oracle_formula is None:
@@ -105,7 +122,7 @@ def _evaluate_case(grammar, text, formula, oracle_formula, features, solver, sol
             raise
         except BaseException as exc:  # noqa: BLE001
             oracle = dict(verdicts=[], exact=False, error=f"oracle crashed: {type(exc).__name__}: {exc}", readings=0)
-    return dict(ev=ev, ck=ck, oracle=oracle, strategy="+".join(strategy) or "none")
+    return dict(ev=ev, ck=ck, oracle=oracle, strategy="+".join(strategy) or "none", transient=transient)
 
 
 def _prepare(grammar, text, raw, oracle_text, watchdog_s):
@@ -269,7 +286,11 @@ def run(rep, tier: str, seed: int) -> None:
     import isla.evaluator  # noqa: F401  (imported before the fork so that the workers share it)
     import isla.solver  # noqa: F401
     import bounded.refeval  # noqa: F401
-    with multiprocessing.get_context("fork").Pool(WORKERS) as pool:
+    # tree pools are built before the fork (inherited by the workers); every task runs in a FRESH child
+    # (maxtasksperchild=1): ISLa keeps caches across evaluate() calls (match-expression parsers, tries) and a
+    # verdict / running time must not depend on which tasks a worker happened to run before
+    pools = {name: H.tree_pool(name, cfg["n_enum"], cfg["n_random"], seed) for name in GRAMMARS}
+    with multiprocessing.get_context("fork").Pool(WORKERS, maxtasksperchild=1) as pool:
         results = list(pool.imap_unordered(_worker, tasks, chunksize=1))
     order = {(t["grammar"], t["tid"], t["variant"]): i for i, t in enumerate(tasks)}
     results.sort(key=lambda r: order[(r["task"]["grammar"], r["task"]["tid"], r["task"]["variant"])])
@@ -277,7 +298,6 @@ def run(rep, tier: str, seed: int) -> None:
     cover_total: Dict[str, int] = {}
     strategy_cases = {"legacy": 0, "qe": 0}
     per_family: Dict[str, Dict[str, int]] = {}
-    pools = {name: H.tree_pool(name, cfg["n_enum"], cfg["n_random"], seed) for name in GRAMMARS}
     n_samples = 0
     slow: List[Tuple[float, str]] = []
     for res in results:
@@ -311,6 +331,9 @@ def run(rep, tier: str, seed: int) -> None:
                 n_samples += 1
             rep.case(key=key, nontrivial=(status in ("ok", "violation")), sample=sample)
             fam["cases"] += 1
+            for note in case.get("transient", []):
+                rep.note_inconclusive(f"{name}: {task['text']} on tree #{case['tree']}: transient Z3 timeout inside "
+                                      f"is_valid (500 ms): {note}")
             for s in case["strategy"].split("+"):
                 if s in strategy_cases:
                     strategy_cases[s] += 1
